@@ -1390,7 +1390,19 @@ def check_C19(tier, seed):
                 for c in s["cels"].values():
                     if c["kind"] == "linked":
                         c["opacity"] = 0
-            out.append((s, gen.encode(s, None, rng)))
+            ch = None
+            if i % 4 == 1:
+                # the one visible layer sits inside a visible GROUP that has an opacity and a blend mode of its own, and the header's flags
+                # word has the "group opacity valid" bits set: a group's opacity and mode take no part in compositing
+                grp = {"flags": 1, "ltype": 1, "level": 0, "blend": rng.choice([0, 1, 16]), "opacity": rng.choice([128, 0, 200]), "name": "grp", "tileset": 0,
+                       "ud": None, "default_w": 0, "default_h": 0}
+                for lay in s["layers"]:
+                    lay["level"] = 1
+                s["layers"].insert(0, grp)
+                s["cels"] = {(f_, l_ + 1): c for (f_, l_), c in s["cels"].items()}
+                ch = gen.default_choices()
+                ch["hdr_flags"] = rng.choice([2, 3, 6, 7, 0xFFFFFFFF])
+            out.append((s, gen.encode(s, ch, rng)))
         for g in range(16 if tier == "quick" else 96):
             s = covering_sprite(g, rng)
             out.append((s, gen.encode(s, None, rng)))
@@ -2188,6 +2200,10 @@ def check_C18(tier: str, seed: int) -> int:
             else:
                 wd, ht = rng.randint(1, 5), rng.randint(1, 5)
                 q = queries(wd * ht)
+                if i % 4 == 1:
+                    # the image starts with a run of fully transparent black pixels (a run cache must not answer before it was filled)
+                    for z in range(min(len(q), rng.choice([1, 2, 3]))):
+                        q[z] = (0, 0, 0, 0)
                 packed = [r | g << 8 | b << 16 | a << 24 for r, g, b, a in q]
                 if i % 3 == 2:
                     # the image sits in a container longer than 4 * w * h bytes: the extra bytes are not pixels
